@@ -486,6 +486,8 @@ type dStore struct {
 	gatePut map[int]chan struct{} // pod -> the next Put of that pod waits here (before the write)
 	gateDel map[int]chan struct{}
 	atGate  chan int
+	failPut int // the next failPut Puts fail before any effect (the bolt write returns an error)
+	failDel int
 }
 
 func dRecFields(rec daemon.PodResources) (c, e, a int, sticky bool) {
@@ -522,7 +524,13 @@ func (s *dStore) Put(key string, value interface{}) error {
 	c, e, a, sticky := dRecFields(rec)
 	s.x.emit(vt.M{"ev": "put_begin", "p": p, "c": c, "e": e, "a": a, "sticky": sticky})
 	s.x.at("put_begin", true)
-	err := s.real.Put(key, value)
+	var err error
+	if s.failPut > 0 {
+		s.failPut--
+		err = fmt.Errorf("verif: injected database write failure")
+	} else {
+		err = s.real.Put(key, value)
+	}
 	s.x.emit(vt.M{"ev": "put_end", "p": p, "ok": err == nil})
 	s.x.at("put_end", true)
 	s.x.mu.Unlock()
@@ -535,7 +543,13 @@ func (s *dStore) Delete(key string) error {
 	s.x.enter()
 	s.x.emit(vt.M{"ev": "del_begin", "p": p})
 	s.x.at("del_begin", true)
-	err := s.real.Delete(key)
+	var err error
+	if s.failDel > 0 {
+		s.failDel--
+		err = fmt.Errorf("verif: injected database write failure")
+	} else {
+		err = s.real.Delete(key)
+	}
 	s.x.emit(vt.M{"ev": "del_end", "p": p, "ok": err == nil})
 	s.x.at("del_end", true)
 	s.x.mu.Unlock()
@@ -1185,6 +1199,47 @@ func (d *dDriver) joinAll() {
 	}
 }
 
+// withNoFreeFD runs f while the process cannot open a new file descriptor: every netlink call of f fails with
+// "too many open files", the way it does for a moment on a node whose daemon ran into its fd limit. Everything the
+// harness itself needs (trace file, bolt file) is open already.
+func dWithNoFreeFD(t *testing.T, f func()) {
+	var old syscall.Rlimit
+	if err := syscall.Getrlimit(syscall.RLIMIT_NOFILE, &old); err != nil {
+		t.Fatalf("getrlimit: %v", err)
+	}
+	low := old
+	low.Cur = 0
+	if err := syscall.Setrlimit(syscall.RLIMIT_NOFILE, &low); err != nil {
+		t.Fatalf("setrlimit: %v", err)
+	}
+	defer func() {
+		if err := syscall.Setrlimit(syscall.RLIMIT_NOFILE, &old); err != nil {
+			t.Fatalf("restore rlimit: %v", err)
+		}
+	}()
+	f()
+}
+
+// gcFaulty: one GC pass during which the kernel rule cleanup cannot proceed (transient fault); the pass is logged
+// as disturbed, so the specification does not count it towards "within two passes".
+func (d *dDriver) gcFaulty() {
+	d.joinAll()
+	if d.crashed() || !d.quiescent() {
+		return
+	}
+	s := d.lock()
+	d.nextG++
+	g := d.nextG
+	s.x.emit(vt.M{"ev": "gc_call", "g": g})
+	s.x.emit(vt.M{"ev": "env_disturb", "what": "netlink unusable during this pass"})
+	s.x.mu.Unlock()
+	var err error
+	dWithNoFreeFD(d.t, func() { err = s.svc.gcPods(context.Background()) })
+	s.x.mu.Lock()
+	s.x.emit(vt.M{"ev": "gc_ret", "g": g, "err": err != nil})
+	s.x.mu.Unlock()
+}
+
 func (d *dDriver) gc() {
 	d.reap()
 	if d.gcDone != nil {
@@ -1227,13 +1282,13 @@ func (d *dDriver) gc() {
 // incarnation starts from the bolt file as it is on disk and from the cloud as it is.
 func (d *dDriver) restart() {
 	old := d.s
-	if !d.crashed() {
-		old.x.mu.Lock()
+	old.x.mu.Lock()
+	if !old.x.dead { // else: killed at an armed crash point already (possibly just now, in a request still in flight)
 		old.x.dead = true
 		old.x.w.Emit(vt.M{"ev": "crash", "point": "idle"})
 		close(old.x.crashCh)
-		old.x.mu.Unlock()
 	}
+	old.x.mu.Unlock()
 	for _, f := range d.flights {
 		if f.cancel != nil {
 			f.cancel()
@@ -1295,7 +1350,19 @@ func (d *dDriver) step(st vt.M) {
 	case "kill":
 		d.restart()
 	case "gc":
-		d.gc()
+		if vt.Bool(st["fault"]) {
+			d.gcFaulty()
+		} else {
+			d.gc()
+		}
+	case "dbfault":
+		s = d.lock()
+		if vt.Str(st["op"]) == "del" {
+			s.store.failDel = 1
+		} else {
+			s.store.failPut = 1
+		}
+		s.x.mu.Unlock()
 	case "join":
 		d.joinAll()
 	case "detach":
@@ -1520,9 +1587,22 @@ func dRandomScenarios(fam string, n int) [][]vt.M {
 					pts := []string{"getpod", "put_begin", "put_end", "del_begin", "del_end"}
 					k := []string{"add", "add", "del"}[rng.Intn(3)]
 					sc = append(sc, vt.M{"a": "crashat", "point": pts[rng.Intn(len(pts))], "n": 1}, dCall(k, p, c, "none"))
-				case x < 17:
+				case x < 17 && j%2 == 0:
 					sc = append(sc, vt.M{"a": "detach", "e": 2}, vt.M{"a": "restart"})
 				case x < 18:
+					// the bolt write of one request fails; the runtime retries or the daemon is restarted
+					if rng.Intn(3) > 0 {
+						sc = append(sc, vt.M{"a": "dbfault", "op": "put"}, dCall("add", p, c, "none"))
+					} else {
+						sc = append(sc, dCall("add", p, c, "none"), vt.M{"a": "dbfault", "op": "del"}, dCall("del", p, c, "none"))
+					}
+					switch rng.Intn(3) {
+					case 0:
+						sc = append(sc, vt.M{"a": "restart"}, dCall("add", 1+p%3, c, "none"))
+					case 1:
+						sc = append(sc, dCall("add", p, c, "none"))
+					}
+				case x < 19 && j%2 == 0:
 					sc = append(sc, dCall("add", p, c, "put"), dCall("add", 1+p%3, c, "none"), vt.M{"a": "open", "p": 0})
 				default:
 					// a DEL sits between the pool release and the record delete while another pod asks; then the daemon is killed
@@ -1571,6 +1651,10 @@ func dRandomScenarios(fam string, n int) [][]vt.M {
 			}
 			switch i % 3 {
 			case 0:
+				if i%2 == 0 {
+					// the first pass runs into a transient fault of the rule cleanup; afterwards the node is healthy
+					sc = append(sc, vt.M{"a": "gc", "fault": true})
+				}
 				sc = append(sc, vt.M{"a": "gc"}, vt.M{"a": "gc"}, vt.M{"a": "gc"})
 			case 1:
 				// GC while a request sits inside its handler
